@@ -1,41 +1,50 @@
 #!/bin/bash
 # tools/seed_matrix.sh [seed ids...]: runs the registered checks against every seeded change, each on a patched
 # scratch copy of a snapshot of /repo (outside /repo and /verif, removed afterwards), with a private copy of the
-# engine binary, and writes seeded/matrix.json. A check is run for a seed when one of the patched files lies in a
-# package the check loads (directly or as a dependency); other cells are "n/a" (the check never reads the file).
-# A cell is "caught" when the check exits 1 with a VIOLATION line, "quiet" when it exits 0.
+# engine binary, and writes seeded/matrix.json. A check is run for a seed when it READS THE BODY of a function in
+# one of the patched files - symbolically executes it, inlines it or analyses it for its write set; the list is the
+# `coverage.files_with_bodies_read` of the check's evidence file from its last run on the clean tree. Every other
+# cell is "n/a": a check that reads no body in a patched file cannot change its verdict (contracts of the patched
+# functions are not touched by the seeds). A cell is "caught" when the check exits 1 with a VIOLATION line,
+# "quiet" when it exits 0. Seeds run two at a time (PAR=1 for strictly sequential).
 cd /verif
 export GOFLAGS=-mod=mod GOPROXY=off GOSUMDB=off GOTOOLCHAIN=local
 ids=${@:-$(ls seeded | grep '^C')}
+PAR=${PAR:-2}
 work=$(mktemp -d /tmp/seedrun.XXXXXX)
 mkdir -p $work/base; rsync -a --exclude .git /repo/ $work/base/; cp bin/govc $work/govc
 python3 - > $work/deps.txt <<'PY'
-import json,subprocess
+import json
 m=json.load(open('/verif/MANIFEST.json'))
 for c in m['checks']:
     pid=c['property_id']
-    pk=json.load(open('/verif/props/%s.json'%pid))['packages']
-    out=subprocess.run(['go','list','-tags','verif','-deps']+pk,cwd='/repo',capture_output=True,text=True).stdout.split()
-    dirs=[p.replace('github.com/tendermint/tendermint/','') for p in out if p.startswith('github.com/tendermint/tendermint/')]
-    print(pid,' '.join(dirs))
+    ev=json.load(open('/verif/evidence/%s.json'%pid))
+    print(pid,' '.join(ev['coverage'].get('files_with_bodies_read') or []))
 PY
-: > $work/matrix.txt
-for s in $ids; do
+one() {
+  s=$1
   d=$work/$s; mkdir -p $d/out; cp -r $work/base $d/repo
   p=seeded/$s/patch_rebased.diff; [ -f $p ] || p=seeded/$s/patch.diff
-  if ! (cd $d/repo && patch -p1 -F3 -s < /verif/$p >/dev/null 2>&1); then echo "$s APPLY-FAILED" | tee -a $work/matrix.txt; rm -rf $d; continue; fi
+  if ! (cd $d/repo && patch -p1 -F3 -s < /verif/$p >/dev/null 2>&1); then echo "$s APPLY-FAILED" >> $work/m.$s; rm -rf $d; return; fi
   (cd $d/repo && find . \( -name '*.orig' -o -name '*.rej' \) -delete)
   files=$(grep '^+++ b/' $p | sed 's|^+++ b/||')
   while read c deps; do
     rel=no
-    for f in $files; do dir=$(dirname $f); for q in $deps; do [ "$q" = "$dir" ] && rel=yes; done; done
-    if [ $rel = no ]; then echo "$s $c n/a" >> $work/matrix.txt; continue; fi
+    for f in $files; do for q in $deps; do [ "$q" = "$f" ] && rel=yes; done; done
+    if [ $rel = no ]; then echo "$s $c n/a" >> $work/m.$s; continue; fi
     out=$(GOVC_REPO=$d/repo GOVC_OUT=$d/out $work/govc check $c --nocanary 2>&1); code=$?
     obl=$(echo "$out" | grep -o 'obligation [^ ]*:' | sed 's/obligation //;s/:$//' | head -4 | tr '\n' ' ')
-    echo "$s $c exit=$code $obl" | tee -a $work/matrix.txt
+    echo "$s $c exit=$code $obl" | tee -a $work/m.$s
   done < $work/deps.txt
   rm -rf $d
+}
+n=0
+for s in $ids; do
+  one $s &
+  n=$((n+1)); if [ $n -ge $PAR ]; then wait -n; n=$((n-1)); fi
 done
+wait
+cat $work/m.* > $work/matrix.txt
 python3 - "$work/matrix.txt" <<'PY'
 import sys,json,collections
 m=collections.defaultdict(dict)
@@ -49,6 +58,6 @@ for l in open(sys.argv[1]):
         m[p[0]]['_apply']='failed'
 json.dump(m,open('/verif/seeded/matrix.json','w'),indent=1,sort_keys=True)
 for s in sorted(m):
-    print(s, ' '.join('%s:%s'%(c,v['result']) for c,v in sorted(m[s].items()) if isinstance(v,dict) and v['result'] not in ('quiet','n/a')) or 'not caught by any registered check')
+    print(s, ' '.join('%s:%s'%(c,v['result']) for c,v in sorted(m[s].items()) if isinstance(v,dict) and v['result'] not in ('n/a',)) or 'no registered check reads a patched body')
 PY
 rm -rf $work
